@@ -142,16 +142,11 @@ def parse_template(path, specs_dir, seen=None):
                                  'id': 'req:' + st[len('//@canary-requires '):].strip()})
             elif st.startswith('//@canary '):
                 body = st[len('//@canary '):]
-                cid, item, mut = [x.strip() for x in body.split('::', 2)] if body.count('::') >= 2 else (None, None, None)
-                # item ids may contain '::' (Type::fn) - parse more carefully
-                mo = re.match(r'^(\S+)\s+::\s+(.+?)\s+::\s+(.*)$', body)
+                mo = re.match(r'^(\S+)\s+::\s+(.+?)\s+::\s+(.*?)\s==>>\s?(.*)$', body)
                 if not mo:
                     raise UnitError('%s:%d: bad canary' % (path, i + 1))
-                cid, item, mut = mo.group(1), mo.group(2).strip(), mo.group(3)
-                if ' => ' not in mut:
-                    raise UnitError('%s:%d: bad canary mutation' % (path, i + 1))
-                a, b = mut.split(' => ', 1)
-                canaries.append({'kind': 'mutation', 'id': cid, 'item': item, 'from': a.strip(), 'to': b.strip()})
+                canaries.append({'kind': 'mutation', 'id': mo.group(1), 'item': mo.group(2).strip(),
+                                 'from': mo.group(3).strip(), 'to': mo.group(4).strip()})
             elif st.startswith('//@'):
                 raise UnitError('%s:%d: directive outside block: %s' % (path, i + 1, st))
             else:
